@@ -28,7 +28,9 @@ PKG = {"4P": "[7][901]", "5P": "[2] U [8]"}
 
 
 # ------------------------------------------------------------------ trees (JSON-able specs)
-def ft(d, text, fcs, rc=None, mark="Muss", pkg=None):
+def ft(d, text, fcs, rc=None, mark="Muss", pkg=None, ident=None):
+    """ident: the harness's own name of the element (default: the discriminator). Discriminators are neither unique nor mandatory in an AHB
+    (repeated name lines of a NAD segment; None for elements not found in the MIG), so results are matched to elements by position."""
     if pkg:
         x = f"{mark} [{pkg}]"
     elif rc:
@@ -37,20 +39,20 @@ def ft(d, text, fcs, rc=None, mark="Muss", pkg=None):
         x = f"{mark} " + " U ".join(f"[{k}]" for k in fcs)
     else:
         x = mark
-    return {"t": "ft", "d": d, "x": x, "in": text, "fc": list(fcs), "rc": rc, "pkg": pkg}
+    return {"t": "ft", "d": d, "id": ident or d, "x": x, "in": text, "fc": list(fcs), "rc": rc, "pkg": pkg}
 
 
 def vp(d, text, pool):
-    return {"t": "vp", "d": d, "in": text, "pool": pool}
+    return {"t": "vp", "d": d, "id": d, "in": text, "pool": pool}
 
 
-def seg(d, x, ch):
-    return {"t": "segment", "d": d, "x": x, "ch": ch}
+def seg(d, x, ch, ident=None):
+    return {"t": "segment", "d": d, "id": ident or d, "x": x, "ch": ch}
 
 
 def grp(d, x, ch):
     """children: child groups first, then segments (the order in which validate_segment_group gathers them)"""
-    return {"t": "group", "d": d, "x": x, "ch": sorted(ch, key=lambda c: 0 if c["t"] == "group" else 1)}
+    return {"t": "group", "d": d, "id": d, "x": x, "ch": sorted(ch, key=lambda c: 0 if c["t"] == "group" else 1)}
 
 
 def deep(ch):
@@ -84,9 +86,42 @@ def elements(spec):
             yield from elements(c)
 
 
+def ident(spec):
+    return spec.get("id", spec["d"])
+
+
+class OutOfOrder(Exception):
+    pass
+
+
+def pair(spec, results):
+    """{element / node ident: validation result}: the report is read as a stream in document order (a node's row, then the rows of its children
+    unless the node is reported forbidden) -- by position, so that repeated discriminators are told apart"""
+    out, pos = {}, [0]
+
+    def go(s):
+        if s["t"] == "deep":
+            for c in s["ch"]:
+                go(c)
+            return
+        if pos[0] >= len(results) or results[pos[0]].discriminator != s["d"]:
+            raise OutOfOrder(f"row {pos[0]}: expected the row of {ident(s)!r} (discriminator {s['d']!r})")
+        r = results[pos[0]].validation_result
+        out[ident(s)] = r
+        pos[0] += 1
+        if s["t"] in ("segment", "group") and r.requirement_validation.name != "IS_FORBIDDEN":
+            for c in s["ch"]:
+                go(c)
+
+    go(spec)
+    if pos[0] != len(results):
+        raise OutOfOrder(f"{len(results) - pos[0]} rows beyond the document")
+    return out
+
+
 def parent_segments(spec, parent=None):
     if spec["t"] in ("ft", "vp"):
-        yield spec["d"], parent
+        yield ident(spec), parent
     else:
         for c in spec["ch"]:
             yield from parent_segments(c, spec if spec["t"] == "segment" else parent)
@@ -165,11 +200,14 @@ class TreeScenario:
                 return "STask 1 VNone"
             return "SNode 0 [" + "; ".join(spec_term(c) for c in s["ch"]) + "]"
 
-        by_d = {r.discriminator: r.validation_result for r in results} if results is not None else {}
+        try:
+            by_d = pair(self.spec, results) if results is not None else {}
+        except OutOfOrder:
+            by_d = {}
 
         def obs(s):
             if s["t"] == "ft":
-                r = by_d.get(s["d"])
+                r = by_d.get(ident(s))
                 recs = []
                 for k in self.fc_keys(s):
                     es = [e for e in log if e[0] == "fc" and e[1] == k and e[2] == s["in"]]
@@ -186,13 +224,13 @@ class TreeScenario:
         from ahbicht.validation.validation import validate_data_element_freetext
 
         H = harness()
-        by_d = {r.discriminator: r.validation_result for r in results}
+        by_d = pair(self.spec, results)
         parents = dict(parent_segments(self.spec))
         out = {}
         for e in self.fts:
             H.reset(rc=self.rc, hints={"501": "Hinweis A", "502": "Hinweis B"}, fc_expected=self.expected, pkg=PKG, yields={})
-            p = parents[e["d"]]
-            req = by_d[p["d"]].requirement_validation if p is not None else None
+            p = parents[ident(e)]
+            req = by_d[ident(p)].requirement_validation if p is not None else None
             el = build(e)
 
             async def main(el=el, req=req):
@@ -200,7 +238,7 @@ class TreeScenario:
                 return await validate_data_element_freetext(el, req)
 
             a = H.run(main)
-            out[e["d"]] = repr(a[1].validation_result) if a[0] == "ok" else f"raises {a[1]}"
+            out[ident(e)] = repr(a[1].validation_result) if a[0] == "ok" else f"raises {a[1]}"
         return out
 
 
@@ -266,6 +304,13 @@ def scenarios(ctx):
                           {"901": "", "902": "zz", "903": "gamma"}))
     S.append(TreeScenario("group-optional", grp("G", "Kann", [seg("S1", "Muss", [ft("D1", "alpha", ["901"]), ft("D2", "", ["902"])]),
                                                               seg("S2", "Soll [2]", [ft("D3", "gamma", ["901"]), ft("D4", None, ["902"])])]), rc, {"901": "gamma", "902": "zz"}))
+    S.append(TreeScenario("seg-same-discriminator", seg("NAD", "Muss", [ft("3036", "alpha", ["901"], ident="name1"), ft("3036", "beta", ["901"], ident="name2"),
+                                                                       ft("3036", "gamma", ["902"], ident="name3"), ft("3124", "delta", ["902"])]), rc, {"901": "beta", "902": "delta"}))
+    S.append(TreeScenario("seg-no-discriminator", seg("S", "Muss [1]", [ft(None, "alpha", ["901"], ident="first"), ft(None, "beta", ["901"], ident="second"), ft("D3", "", ["901"])]), rc,
+                          {"901": "alpha"}))
+    S.append(TreeScenario("group-same-discriminators", grp("SG2", "Muss", [seg("NAD", "Muss", [ft("3036", "alpha", ["901"], ident="a1"), ft("3036", "beta", ["902"], ident="a2")], ident="NAD-MS"),
+                                                                          seg("NAD", "Muss", [ft("3036", "gamma", ["901"], ident="b1"), ft("3036", "delta", ["902"], ident="b2")], ident="NAD-MR")]), rc,
+                          {"901": "gamma", "902": "beta"}))
     S.append(TreeScenario("seg-packages", seg("S", "Muss [5P] O [1]", [ft("D1", "alpha", [], pkg="4P"), ft("D2", "beta", ["901"]), ft("D3", "gamma", [], pkg="4P")]), rc, {"901": "gamma"}))
     S.append(TreeScenario("group", grp("G", "Muss [1]", [seg("S1", "Muss", [ft("D1", "alpha", ["901"]), ft("D2", "beta", ["902"])]),
                                                           seg("S2", "Soll [2]", [ft("D3", "gamma", ["901"]), ft("D4", "delta", ["902"])])]), rc, {"901": "gamma", "902": "beta"}))
@@ -315,14 +360,23 @@ def run(ctx):
             if base is None:
                 base = out
                 if results is not None:
-                    alone = sc.alone(results)
-                    n_alone += len(alone)
+                    try:
+                        alone = sc.alone(results)
+                        n_alone += len(alone)
+                    except OutOfOrder:
+                        alone = None
             if out != base:
                 ctx.fail(f"{sc.name}|order", inp, repr(base)[:1500], repr(out)[:1500], "oracle: result for this yield vector differs from the result when nothing yields")
-            if results is not None and alone is not None:
-                for r in results:
-                    if r.discriminator in alone and repr(r.validation_result) != alone[r.discriminator]:
-                        ctx.fail(f"{sc.name}|own-input|{r.discriminator}", dict(inp, element=r.discriminator), alone[r.discriminator], repr(r.validation_result),
+            if results is not None:
+                try:
+                    paired = pair(sc.spec, results)
+                except OutOfOrder as ooo:
+                    paired = {}
+                    ctx.fail(f"{sc.name}|document-order", inp, "one row per visited node, in document order", f"{ooo}: {[r.discriminator for r in results]}",
+                             "oracle: the report cannot be matched to the tree position by position")
+                for el_id, res_el in paired.items():
+                    if alone is not None and el_id in alone and repr(res_el) != alone[el_id]:
+                        ctx.fail(f"{sc.name}|own-input|{el_id}", dict(inp, element=el_id), alone[el_id], repr(res_el),
                                  "oracle: the element's result differs from validating the element on its own with its own input")
             leaks = [e for e in log if e[0] == "fc" and e[2] != e[3]]
             if leaks:
@@ -375,12 +429,16 @@ def replay(path):
     print("this vector    :", out1)
     rc = 0 if out0 == out1 else 1
     if res1 is not None:
-        alone = sc.alone(res1)
-        for x in res1:
-            if x.discriminator in alone:
-                same = alone[x.discriminator] == repr(x.validation_result)
+        try:
+            alone, paired = sc.alone(res1), pair(sc.spec, res1)
+        except OutOfOrder as ooo:
+            print("the report cannot be matched to the tree:", ooo)
+            return 1
+        for el_id, x in paired.items():
+            if el_id in alone:
+                same = alone[el_id] == repr(x)
                 rc |= 0 if same else 1
-                print(f"element {x.discriminator}: alone = {alone[x.discriminator]}\n            in tree = {x.validation_result!r}   {'OK' if same else 'DIFFERENT'}")
+                print(f"element {el_id}: alone = {alone[el_id]}\n            in tree = {x!r}   {'OK' if same else 'DIFFERENT'}")
     print("texts seen by the FC evaluators (key, at start, after yielding, fulfilled):", [e[1:] for e in log if e[0] == "fc"])
     print("recorded expected:", r["expected"][:300], "\nrecorded observed:", r["observed"][:300])
     return rc
